@@ -151,6 +151,8 @@ def main():
                 os.remove(p)
                 print("revert of", hh, "does not apply on HEAD (later commit touches the same lines): skipped")
                 continue
+            if hh == "a7d6303":
+                props = ["C02", "C04"]  # since ee5abd1 a dangling link no longer makes later evaluations fail (C01)
             meta[name] = {"kind": "revert", "subject": subj, "expect": props}
         # (b) hand-written
         for name, (f, old, new, expect) in HAND.items():
